@@ -286,3 +286,66 @@ def c02_layout(tname: str, s1: int, s2: int, p1: int, p2: int, **leaves) -> str:
     if a != b:
         return f"layout changes the statement tree: {base!r} vs {alt!r}"
     return ""
+
+
+ERRBASE = "let n 2\nregister r[2]\nmacro m a { g a }\nloop n { g r[0] ; < h r[1] | g r[0] > }\nm r[1]\n"
+ERRSTRIDE = 4       # every 4th token boundary (and the end of the text) is a candidate position
+COMMENTS = ["/* a\n b\n c */", "/*\n*/", "// x\n", "/* one line */", "/* a */ /* b\n*/"]
+BADTOK = ["", "]", "$", "|", "let"]
+
+
+def _errpos_outcome(text):
+    try:
+        return ("ok", repr(parse_to_sexpression(text)))
+    except JaqalParseError as ex:
+        return ("parse error", ex.line, ex.column, str(ex))
+    except JaqalError as ex:
+        return ("jaqal error", str(ex))
+
+
+def c02_errpos(cm: int, bad: int, p1: int, p2: int) -> str:
+    """A comment (possibly spanning lines) is inserted in front of the p1-th token of a program and an
+    offending token in front of the p2-th token (p2 >= p1; none for bad == 0).  The result must be the one
+    obtained without the comment: the same statement tree, or the same error at the same token (its line and
+    column shifted by exactly the inserted comment); and an error must not be reported before the inserted
+    offending token."""
+    return concretely(_c02_errpos, concrete(cm), concrete(bad), concrete(p1), concrete(p2))
+
+
+def _offset(text, line, col):
+    lines = text.split("\n")
+    return sum(len(l) + 1 for l in lines[:line - 1]) + col - 1
+
+
+def _c02_errpos(cm, bad, p1, p2):
+    starts = [i for t, i, _ in reflex.tokens(ERRBASE)] + [len(ERRBASE)]
+    starts = starts[::ERRSTRIDE] + ([starts[-1]] if (len(starts) - 1) % ERRSTRIDE else [])
+    if not (0 <= p1 <= p2 < len(starts)):
+        return "~positions outside the token list"
+    a, b = starts[p1], starts[p2]
+    filler = COMMENTS[cm] + ("" if COMMENTS[cm].endswith("\n") else " ")
+    if COMMENTS[cm].endswith("\n") and (a == 0 or ERRBASE[a - 1] != "\n") and p1 > 0:
+        # a line comment ends the line: only insert it where a line ends anyway
+        return "~line comment inside a line"
+    tail = ERRBASE[a:b] + ((" " + BADTOK[bad] + " ") if bad else "") + ERRBASE[b:]
+    plain = ERRBASE[:a] + tail
+    commented = ERRBASE[:a] + filler + tail
+    o0, o1 = _errpos_outcome(plain), _errpos_outcome(commented)
+    if o0[0] != o1[0]:
+        return f"without the comment: {o0[:3]}; with it: {o1[:3]} :: {commented!r}"
+    if o0[0] == "ok":
+        return "" if o0 == o1 else f"the comment changes the statement tree :: {commented!r}"
+    if o0[0] == "jaqal error":
+        return ""
+    if (o0[1] == "EOF") != (o1[1] == "EOF"):
+        return f"without the comment: {o0[:3]}; with it: {o1[:3]} :: {commented!r}"
+    if o0[1] == "EOF":
+        return ""
+    i0 = _offset(plain, o0[1], o0[2])
+    i1 = _offset(commented, o1[1], o1[2])
+    want = i0 + (len(filler) if i0 >= a else 0)
+    if i1 != want:
+        return f"error reported at {o1[1]}:{o1[2]} (offset {i1}); the same text without the comment reports offset {i0}, i.e. offset {want} here :: {commented!r}"
+    if bad and i1 < b + len(filler) + 1:
+        return f"error reported at offset {i1}, before the offending token at offset {b + len(filler) + 1} :: {commented!r}"
+    return ""
